@@ -299,7 +299,7 @@ def check_receive(c, w, rec, stream, tags, auto_pong=True, sock_id=0, bytewise_f
                     break
             due = [k for k, end in enumerate(ref.ends) if end <= b]
             got = [x for x in w.log[:nxt] if x[0] == 'event' and x[2] in MSG_EVENTS]
-            if len(got) < len(due) and (first_pe is None or len(due) <= len(before)):
+            if len(got) < len(due) and (v is None or first_pe is None or len(due) <= len(before)):
                 ob.fail('C18', 'after %d stream bytes %d message(s) were complete but only %d delivered before the loop waited again'
                         % (b, len(due), len(got)), sig='C18: complete message not delivered in the cycle its last byte arrived')
             if auto_pong and not client_closed:
